@@ -4,7 +4,7 @@
 (* the same packets with the same offsets and payload status, the same counters  *)
 (* and the same input errors; and its own invariants hold on the way.            *)
 EXTENDS Reader
-CONSTANTS MaxLen, Sizes, Pkts, Filters, CutAll
+CONSTANTS Lens, Sizes, Pkts, Filters, CutMode
 VARIABLES i, out, seen, filt, pay, errs, done
 S == INSTANCE Scanner
 \* the configurations' packet kinds and filters (as in MC_Scanner)
